@@ -14,6 +14,10 @@ driver `Drivers/C05.lean` runs against `glue/core/subset.py`, `decorators.py`, `
   that change the leaf environment (`w : epoch ↦ Env`) and invalidate what the policy `pol` says
   (`pinnedPolicy`: the one table of the top-level state's class / nothing for links;
   `repairedPolicy`: `clear_all_caches()`);
+* `expand L prog` — histories with **re-entrant** mutations: a mutation is a script of phases (clear / state
+  change / broadcast, as coded), `L` says which evaluations hub listeners perform when a message class is
+  delivered; the expansion is a flat history run by the same `Impl.run` / `Spec.run` (the `World` tick moves with
+  every state change of a script: listener evaluations are judged in the state current at that moment);
 * `Spec.run tbl w` — the same histories with nothing cached: every evaluation returns
   `denoteNow` = `Expr.denote` of the value the object *currently* stands for in the *current*
   environment.
